@@ -446,7 +446,7 @@ func (a *sparseArrayObject) export(ctx *objectExportCtx) interface{} {
 		idx := item.idx
 		for i := prevIdx; i < idx; i++ {
 			if a.prototype != nil {
-				if v := a.prototype.self.getIdx(valueInt(i), nil); v != nil {
+				if v := a.prototype.self.getIdx(valueInt(i), a.val); v != nil {
 					arr[i] = exportValue(v, ctx)
 				}
 			}
@@ -462,7 +462,7 @@ func (a *sparseArrayObject) export(ctx *objectExportCtx) interface{} {
 	}
 	for i := prevIdx; i < a.length; i++ {
 		if a.prototype != nil {
-			if v := a.prototype.self.getIdx(valueInt(i), nil); v != nil {
+			if v := a.prototype.self.getIdx(valueInt(i), a.val); v != nil {
 				arr[i] = exportValue(v, ctx)
 			}
 		}
